@@ -395,14 +395,16 @@ func checkC10(c *Ctx) {
 			for _, it := range t.Items {
 				if _, isIf := it.Instr.(*ssa.If); isIf {
 					rel := c.condRel(it)
-					if (strings.Contains(rel.X, "len(fld:config.AdminAPIConfig.IPAllowList)") || strings.Contains(rel.X, "len(fld:config.AdminAPIConfig.IPDenyList)")) && rel.Y == "" && rel.Lo >= 1 {
+					// (a length that is ≠ 0 is ≥ 1)
+					if (strings.Contains(rel.X, "len(fld:config.AdminAPIConfig.IPAllowList)") || strings.Contains(rel.X, "len(fld:config.AdminAPIConfig.IPDenyList)")) && rel.Y == "" && rel.Pred == "" &&
+						(rel.Lo >= 1 || (rel.Neq && rel.Lo == 0 && rel.Hi == 0)) {
 						configured = true
 					}
 				}
 			}
 			if !configured {
 				// unfiltered handler: both lists must have been found empty on this path
-				if strings.Contains(d, "NewServeMux") {
+				if strings.HasPrefix(d, "call:net/http.NewServeMux(") {
 					emptyA, emptyD := false, false
 					for _, it := range t.Items {
 						if _, isIf := it.Instr.(*ssa.If); isIf {
@@ -425,7 +427,7 @@ func checkC10(c *Ctx) {
 			}
 			if e, _, ok := c.findRel(t, "NewIPFilter(", "", 0, -1); ok && (e.Neq || e.Lo != 0) && strings.Contains(e.X, "#1") {
 				// error edge
-				if strings.Contains(d, "NewServeMux") {
+				if strings.HasPrefix(d, "call:net/http.NewServeMux(") {
 					return "a malformed IP list entry makes NewMux return the bare mux: the Admin API is served unfiltered exactly when filtering was requested"
 				}
 				if mc, isMC := stripConv(r.Results[0]).(*ssa.MakeClosure); isMC {
@@ -736,8 +738,17 @@ func checkC11(c *Ctx) {
 				// guarded by name equality
 				eq := false
 				for _, b := range rb.Blocks {
-					if ifi, ok := b.Instrs[len(b.Instrs)-1].(*ssa.If); ok && b.Succs[0].Dominates(rm.Block()) {
-						r := p.RelOf(ifi.Cond, true, nil)
+					ifi, ok := b.Instrs[len(b.Instrs)-1].(*ssa.If)
+					if !ok {
+						continue
+					}
+					// the removal sits on the edge that established name equality — the true edge of
+					// `==`, or the false edge of a `!= … continue` guard
+					for si, pol := range []bool{true, false} {
+						if !b.Succs[si].Dominates(rm.Block()) || b.Succs[si].Dominates(b) {
+							continue // not the edge towards the removal (or a back edge to the loop head)
+						}
+						r := p.RelOf(ifi.Cond, pol, nil)
 						if strings.Contains(r.X+r.Y, "Backend.Name") && strings.Contains(r.X+r.Y, "param:name") && !r.Neq && r.Lo == 0 && r.Hi == 0 {
 							eq = true
 						}
